@@ -2691,19 +2691,24 @@ public:
       return;
 
     uint64_t e_sz = check_and_get_elem_size(elem_size);
+    // If the segment cannot be enumerated then the contents of the
+    // array after the store are unknown: the store cannot be skipped
+    // because the cells that it overwrites would keep their old values.
     interval_t lb_i = to_interval(lb_idx);
     auto lb = lb_i.singleton();
     if (!lb) {
-      CRAB_WARN("array adaptive store range ignored because ", "lower bound",
-                lb_idx, " is not constant");
+      CRAB_WARN("array adaptive store range forgets the array because ",
+                "lower bound", lb_idx, " is not constant");
+      forget_array(a);
       return;
     }
 
     interval_t ub_i = to_interval(ub_idx);
     auto ub = ub_i.singleton();
     if (!ub) {
-      CRAB_WARN("array adaptive store range ignored because ", "upper bound ",
-                ub_idx, " is not constant");
+      CRAB_WARN("array adaptive store range forgets the array because ",
+                "upper bound ", ub_idx, " is not constant");
+      forget_array(a);
       return;
     }
 
@@ -2722,13 +2727,33 @@ public:
                 crab_domain_params_man::get().array_adaptive_max_array_size()) -
             1) *
            e_sz);
-      CRAB_WARN("array adaptive store range will ignore indexes greater than ",
+      CRAB_WARN("array adaptive store range will not keep track of indexes "
+                "greater than ",
                 e);
     }
 
     for (number_t i = *lb; i <= e;) {
       array_store(a, elem_size, i, val, false);
       i = i + e_sz;
+    }
+
+    if (e < *ub) {
+      // The rest of the segment is written too: the cells that overlap
+      // with it do not keep their old values. If the array is smashed
+      // then val has been already joined with its summarized variable.
+      const array_state &as = lookup_array_state(a);
+      if (!as.is_smashed()) {
+        array_state next_as(as);
+        offset_map_t &offset_map = next_as.get_offset_map();
+        number_t rest_lb = e + e_sz;
+        number_t rest_sz = (*ub - rest_lb) + 1;
+        std::vector<cell_t> cells;
+        offset_map.get_overlap_cells(
+            offset_t(static_cast<int64_t>(rest_lb)),
+            (uint64_t) static_cast<int64_t>(rest_sz), cells);
+        kill_cells(a, cells, offset_map);
+        m_array_map.set(a, next_as);
+      }
     }
   }
 
